@@ -3,7 +3,7 @@
 (* Generator (kind G) for C16: TLC enumerates every string over a small    *)
 (* alphabet of character classes up to a length bound (or every shape of a *)
 (* structured value), concretises it to bytes (representative of a class   *)
-(* chosen by position and VERIF_SEED) and writes the argument together     *)
+(* chosen by VERIF_SEED, position and context) and writes the argument     *)
 (* with what Helpers.tla says must be observed.  One ndjson line per state *)
 (* carries the cases of all one-symbol extensions of that state (fewer,    *)
 (* longer lines: CSVWrite costs per line).                                 *)
@@ -60,11 +60,15 @@ FoldT == {64, 91, 96, 97, 122, 123, 225, 33}                \* the same without 
 Reps == CASE Fam = "num" -> NumReps [] Fam = "dec" -> DecReps [] Fam = "text" -> TextReps [] OTHER -> <<>>
 Syms == DOMAIN Reps
 
-RECURSIVE ConcFrom(_, _)
-ConcFrom(cls, i) ==
+\* Which alternative stands for a class symbol depends on the seed, the position and the whole class string (a
+\* position-weighted sum of the symbols), so that every alternative meets every syntactic role within one run.
+RECURSIVE Mix(_, _)
+Mix(cls, i) == IF i > Len(cls) THEN 0 ELSE i * Reps[cls[i]][1][1] + Mix(cls, i + 1)
+RECURSIVE ConcFrom(_, _, _)
+ConcFrom(cls, i, m) ==
     IF i > Len(cls) THEN <<>>
-    ELSE LET alts == Reps[cls[i]] IN alts[((Seed + i) % Len(alts)) + 1] \o ConcFrom(cls, i + 1)
-Conc(cls) == ConcFrom(cls, 1)
+    ELSE LET alts == Reps[cls[i]] IN alts[((Seed + i + m) % Len(alts)) + 1] \o ConcFrom(cls, i + 1, m)
+Conc(cls) == ConcFrom(cls, 1, Mix(cls, 1))
 
 SeqsUpTo(S, n) == UNION { [1..k -> S] : k \in 0..n }
 
@@ -92,10 +96,16 @@ DUBases   == { <<>>, <<116, 101, 120, 116, 47, 104, 116, 109, 108>>, <<97, 47, 9
 DUParams  == { <<>>, <<59, 99, 104, 97, 114, 115, 101, 116, 61, 117, 116, 102, 45, 56>>,        \* ";charset=utf-8"
                <<59, 97, 61, 98, 59, 99, 61, 100>> }                                            \* ";a=b;c=d"
 DUPayload == {0, 37, 43, 44, 59, 61, 97, 255, 32}
-DUEncs    == {"b64", "pctall", "pctlower", "pctmin", "query"}
-\* expected: media type (text/plain when absent; parameters may or may not be part of it) and the exact payload
+\* b64: base64;  pctall / pctlower: every byte as %XX / %xx;  pctmin: all but RFC 3986 unreserved bytes escaped;
+\* query: url.QueryEscape (space becomes '+');  tab: the bytes DataURIEncodingTable marks are escaped ('+' is not)
+DUEncs    == {"b64", "pctall", "pctlower", "pctmin", "query", "tab"}
+Subst(s, a, b) == [i \in 1..Len(s) |-> IF s[i] = a THEN b ELSE s[i]]
+\* expected: media type (text/plain when absent; parameters may or may not be part of it) and the exact payload;
+\* where the encoded text has a literal '+' both readings of it are accepted (see Helpers!PayloadOK)
 DUCase(base, params, enc, payload) ==
     [kind |-> "enc", base |-> base, params |-> params, enc |-> enc, payload |-> payload,
+     pay |-> {payload} \cup (IF enc = "query" THEN {Subst(payload, 32, 43)} ELSE {})
+                       \cup (IF enc = "tab" /\ Tables["datauri"][43 + 1] = 0 THEN {Subst(payload, 43, 32)} ELSE {}),
      mt |-> IF base = <<>> THEN H!TextPlain ELSE base]
 \* malformed shapes: no "data:" prefix, no comma, invalid base64  =>  an error
 DUBad == { <<>>, <<100>>, <<100, 97, 116, 97>>, <<100, 97, 116, 97, 58>>,                       \* "", "d", "data", "data:"
